@@ -37,12 +37,34 @@ CONSTANTS Steps,      \* set of steps (seconds), each <= 4h (a larger step makes
           PresMode,   \* "subset": presence chosen in one step; "runs": run by run (simulation)
           RunLens,    \* "runs": set of run lengths (cells) to choose from
           Deltas,     \* follow-up queries through the cache: set of offsets in half-steps ({} = none)
+          StepGuard,  \* BOOLEAN: RangeQuery keeps the slice size >= step (fixes/C13-slice-size-at-least-step.patch)
+          Skews,      \* set of clock skews (seconds) between Start()+Dur() and End() of the RangeQueryTimes value
           Mirror      \* BOOLEAN: Overlaps has cases 10 and 11 ("first range inside the second, start / end
                       \* aligned", added by pint commit c96496e after this model found them missing). The driver
                       \* sets it from a probe of the real promapi.Overlaps, so the model follows the tree it is
                       \* checked against (FALSE = the tree before the fix, e.g. the revert mutant)
 
 Series == 1..NSeries
+
+-----------------------------------------------------------------------------
+(* Assumptions about the environment, stated once. The constant-level ones are ASSUMEs; those about Go's time  *)
+(* package and the Prometheus API are operators that JUDGE evaluates against probe records taken from the real   *)
+(* time.Time / time.Duration and the real PromQL engine in every run (RangeSliceTrace!TProbe).                   *)
+(*  E1 RangeQueryTimes: Start(), End(), Dur(), Step(). pint ships one implementation, NewRelativeRange          *)
+(*     (Start = now - lookback, End = now, each reading the clock, Dur = lookback); tests use an absolute one    *)
+(*     (Dur = End - Start). Both are covered by  Dur = End - Start - skew,  skew \in Skews, skew >= 0.            *)
+(*  E2 whole seconds: the model ignores the sub-second part of now (it only adds a last slice holding no point). *)
+(*  E3 the base instant B is a multiple of the slice size counted from Go's zero Time, so                        *)
+(*     (B + t).Round(size) = B + RoundTo(t, size)  and  Duration(2h).Round(step) = RoundTo(7200, step).          *)
+(*  E4 Prometheus evaluates query_range(start, end, step) exactly at start + k*step <= end: it does not align    *)
+(*     start to the step (EvalTimes). A server that aligns start would move slices onto another grid.            *)
+(*  E5 what the server holds does not change during a session, and a series has a value at t iff t's cell is     *)
+(*     present (the 5 m look-back of real Prometheus is folded into the cells).                                  *)
+ASSUME Skews \subseteq Nat
+ASSUME CellDiv \in {1, 2}
+ASSUME \A st \in Steps : st \in Nat /\ st >= CellDiv
+\* a step above 4h rounds the slice size to 0 and sliceRange never terminates: only with the guard
+ASSUME StepGuard \/ \A st \in Steps : st <= 14400
 
 Min2(a, b) == IF a < b THEN a ELSE b
 Max2(a, b) == IF a > b THEN a ELSE b
@@ -54,7 +76,9 @@ RoundTo(t, d) == IF d <= 0 THEN t ELSE LET r == t % d IN IF r + r < d THEN t - r
 -----------------------------------------------------------------------------
 (* range.go: slice computation                                             *)
 
-SliceSize(st) == RoundTo(7200, st)          \* queryStep := (time.Hour * 2).Round(step)
+\* queryStep := (time.Hour * 2).Round(step); with fixes/C13-slice-size-at-least-step.patch (constant StepGuard,
+\* set by the driver from a probe of the real RangeQuery) never below the step
+SliceSize(st) == IF StepGuard /\ RoundTo(7200, st) < st THEN st ELSE RoundTo(7200, st)
 
 RECURSIVE SliceLoop(_, _, _, _)
 SliceLoop(rstart, end, size, acc) ==         \* for rstart.Before(end) { ... }
@@ -69,8 +93,8 @@ SliceRange(start, end, resolution, size) ==  \* sliceRange()
            all    == SliceLoop(rstart, end, size, lead)
        IN  [i \in 1..Len(all) |-> IF i < Len(all) THEN [all[i] EXCEPT !.e = @ - 1] ELSE all[i]]
 
-QuerySlices(start, end, st) ==               \* head of Prometheus.RangeQuery (lookback = params.Dur())
-  IF SliceSize(st) > end - start THEN << [s |-> start, e |-> end] >>
+QuerySlices(start, end, st, dur) ==          \* head of Prometheus.RangeQuery; dur = params.Dur() (the lookback)
+  IF SliceSize(st) > dur THEN << [s |-> start, e |-> end] >>
   ELSE SliceRange(start, end, st, SliceSize(st))
 
 -----------------------------------------------------------------------------
@@ -229,10 +253,12 @@ VARIABLES step, start, end,   \* the query (of the session) being answered
           arrival,            \* history: order in which slice responses arrived
           q,                  \* 1 = first query of the session, 2 = follow-up query (same expr and step)
           delta,              \* the follow-up query asks for [start + delta, end + delta]; -1 = none
+          skew,               \* RangeQueryTimes: Dur() = end - start - skew (0 for an absolute window; a now-based
+                              \* window reads the clock twice, so End() may be later than Start() + Dur())
           cache,              \* queryCache.entries restricted to this expr/step: key -> slice response
           miss,               \* slice indices of the current query that were not in the cache when it began
           hist                \* history: finished queries of the session
-vars == <<step, start, end, unit, slices, pres, cur, pc, pending, collected, ranges, arrival, q, delta, cache, miss, hist>>
+vars == <<step, start, end, unit, slices, pres, cur, pc, pending, collected, ranges, arrival, q, delta, skew, cache, miss, hist>>
 
 Q(st) == CASE Quantum = "half" -> IF st % 2 = 0 THEN st \div 2 ELSE st
            [] Quantum = "step" -> st
@@ -272,32 +298,33 @@ Init ==
   /\ pres = [f \in Series |-> {}] /\ cur = <<0, 0, FALSE>>
   /\ pc = "start"
   /\ pending = {} /\ collected = << >> /\ ranges = << >> /\ arrival = << >>
-  /\ q = 1 /\ delta = -1 /\ cache = << >> /\ miss = {} /\ hist = << >>
+  /\ q = 1 /\ delta = -1 /\ skew = 0 /\ cache = << >> /\ miss = {} /\ hist = << >>
 
 PickStart ==
   /\ pc = "start"
   /\ start' \in Starts(step)
   /\ pc' = "end"
-  /\ UNCHANGED <<step, end, unit, slices, pres, cur, pending, collected, ranges, arrival, q, delta, cache, miss, hist>>
+  /\ UNCHANGED <<step, end, unit, slices, pres, cur, pending, collected, ranges, arrival, q, delta, skew, cache, miss, hist>>
 
 PickEnd ==
   /\ pc = "end"
   /\ end' \in Ends(step, start)
   /\ delta' \in {DeltaOf(h, step) : h \in Deltas \cup {-1}}
+  /\ skew' \in Skews
   /\ pc' = "slice"
   /\ UNCHANGED <<step, start, unit, slices, pres, cur, pending, collected, ranges, arrival, q, cache, miss, hist>>
 
 \* head of RangeQuery: the slices (windows outside the bounds of the configuration are dropped here)
 Slice ==
   /\ pc = "slice"
-  /\ LET sl == QuerySlices(start, end, step) IN
+  /\ LET sl == QuerySlices(start, end, step, end - start - skew) IN
      /\ Len(sl) <= MaxSlices
      /\ CellOf(end + Max2(delta, 0), unit) - CellOf(sl[1].s, unit) + 1 <= MaxCells
      /\ slices' = sl
      /\ miss' = 1..Len(sl)
      /\ cur' = <<1, CellOf(sl[1].s, unit), FALSE>>
   /\ pc' = "pres"
-  /\ UNCHANGED <<step, start, end, unit, pres, pending, collected, ranges, arrival, q, delta, cache, hist>>
+  /\ UNCHANGED <<step, start, end, unit, pres, pending, collected, ranges, arrival, q, delta, skew, cache, hist>>
 
 StartWait == /\ pc' = "wait" /\ pending' = 1..Len(slices)
 
@@ -306,7 +333,7 @@ ChoosePresence ==
   /\ pc = "pres" /\ PresMode = "subset"
   /\ pres' \in [Series -> SUBSET Cells]
   /\ StartWait
-  /\ UNCHANGED <<step, start, end, unit, slices, cur, collected, ranges, arrival, q, delta, cache, miss, hist>>
+  /\ UNCHANGED <<step, start, end, unit, slices, cur, collected, ranges, arrival, q, delta, skew, cache, miss, hist>>
 
 \* ... or run by run (simulation): alternating absent / present runs, lengths from RunLens
 AddRun ==
@@ -318,7 +345,7 @@ AddRun ==
        /\ IF upto < LastCell THEN cur' = <<f, upto + 1, ~v>> /\ UNCHANGED <<pc, pending>>
           ELSE IF f < NSeries THEN cur' = <<f + 1, FirstCell, FALSE>> /\ UNCHANGED <<pc, pending>>
           ELSE cur' = cur /\ StartWait
-  /\ UNCHANGED <<step, start, end, unit, slices, collected, ranges, arrival, q, delta, cache, miss, hist>>
+  /\ UNCHANGED <<step, start, end, unit, slices, collected, ranges, arrival, q, delta, skew, cache, miss, hist>>
 
 \* rangeQuery.CacheKey: uri, endpoint, expr, Start, End.Round(step), step - the first three and the
 \* step are fixed within a session
@@ -340,22 +367,22 @@ Respond(k) ==
   /\ pending' = pending \ {k}
   /\ arrival' = Append(arrival, k)
   /\ pc' = IF pending' = {} THEN "merge" ELSE "wait"
-  /\ UNCHANGED <<step, start, end, unit, slices, pres, cur, ranges, q, delta, miss, hist>>
+  /\ UNCHANGED <<step, start, end, unit, slices, pres, cur, ranges, q, delta, skew, miss, hist>>
 
 Merge ==
   /\ pc = "merge"
   /\ ranges' = IF Len(collected) > 1 THEN MergeRanges(collected, step).rs ELSE collected
   /\ pc' = "sort"
-  /\ UNCHANGED <<step, start, end, unit, slices, pres, cur, pending, collected, arrival, q, delta, cache, miss, hist>>
+  /\ UNCHANGED <<step, start, end, unit, slices, pres, cur, pending, collected, arrival, q, delta, skew, cache, miss, hist>>
 
 Sort ==
   /\ pc = "sort"
   /\ ranges' = SortStable(ranges)
   /\ pc' = "done"
-  /\ UNCHANGED <<step, start, end, unit, slices, pres, cur, pending, collected, arrival, q, delta, cache, miss, hist>>
+  /\ UNCHANGED <<step, start, end, unit, slices, pres, cur, pending, collected, arrival, q, delta, skew, cache, miss, hist>>
 
 \* what is remembered of a finished query (history only)
-QueryRec == [start |-> start, end |-> end, slices |-> slices, order |-> arrival, miss |-> miss]
+QueryRec == [start |-> start, end |-> end, dur |-> end - start - skew, slices |-> slices, order |-> arrival, miss |-> miss]
 
 \* the same question again, `delta` seconds later, through the same client (and its cache)
 Requery ==
@@ -363,17 +390,17 @@ Requery ==
   /\ q' = 2
   /\ hist' = Append(hist, QueryRec)
   /\ start' = start + delta /\ end' = end + delta
-  /\ slices' = QuerySlices(start', end', step)
+  /\ slices' = QuerySlices(start', end', step, end' - start' - skew)
   /\ miss' = {i \in 1..Len(slices') : CacheKey(slices'[i], step) \notin DOMAIN cache}
   /\ pending' = 1..Len(slices') /\ collected' = << >> /\ ranges' = << >> /\ arrival' = << >>
   /\ pc' = "wait"
-  /\ UNCHANGED <<step, unit, pres, cur, delta, cache>>
+  /\ UNCHANGED <<step, unit, pres, cur, delta, skew, cache>>
 
 Next == \/ PickStart \/ PickEnd \/ Slice \/ ChoosePresence \/ AddRun
         \/ (\E k \in pending : Respond(k)) \/ Merge \/ Sort \/ Requery
 Spec == Init /\ [][Next]_vars
 
-MCView == <<step, start, end, unit, pres, cur, pc, pending, collected, ranges, q, delta, cache>>
+MCView == <<step, start, end, unit, pres, cur, pc, pending, collected, ranges, q, delta, skew, cache>>
 
 -----
 (* Properties                                                              *)
